@@ -412,7 +412,7 @@ func evalOneConcrete(e *Engine, fn *ssa.Function, oc *replayOutcome, clause *Cla
 	}
 	env := &SpecEnv{u: cu, vars: vars, st: postSt, old: preSt, pkg: fn.Pkg, bound: map[string]Term{}, ctx: "concrete evaluation"}
 	t := env.evalBool(clause.X)
-	ob := &Obligation{Name: "concrete", Goal: t, NItems: len(cu.items)}
+	ob := &Obligation{Name: "concrete", Goal: t, NItems: len(cu.items), Blk: -2}
 	script := cu.script(ob, false)
 	tmpd, _ := os.MkdirTemp("", "govc-eval.")
 	defer os.RemoveAll(tmpd)
